@@ -25,6 +25,7 @@ from concurrent.futures import ThreadPoolExecutor
 import yaml
 
 import vlib
+import c01aim
 
 LEVEL = "proof"
 INT_EDGE = [0, 1, -1, 2**31 - 1, -2**31, 0xffffff, 0x1000000, 0xff08, 0xffff, 0x7f, 0x80, 0x20, 0xffe1, 0xffe3, 0xffeb]
@@ -275,7 +276,9 @@ def run(ctx):
     trees = {sid: yaml.safe_load(open(os.path.join(DATA, sid + ".schema.yaml"))) for sid in ("vt", "vtab")}
     allm = [(sid,) + m for sid in trees for m in mutants(trees[sid])]
     rnd.shuffle(allm)
-    chosen = [("vt", None, "unmutated", trees["vt"]), ("vtab", None, "unmutated", trees["vtab"])] + allm[:(40 if quick else 700)]
+    # round 3: valid but unusual configurations (key-binder redirect chains/cycles, every punctuation definition shape, odd menus)
+    vars_ = [(sid, None, name, t) for sid, name, t in c01aim.variants(trees)]
+    chosen = [("vt", None, "unmutated", trees["vt"]), ("vtab", None, "unmutated", trees["vtab"])] + vars_ + allm[:(40 if quick else 700)]
     default_yaml = open(os.path.join(vlib.REPO, "data", "minimal", "default.yaml")).read()
 
     def prep(args):
@@ -310,9 +313,16 @@ def run(ctx):
             raise RuntimeError("the unmutated synthetic schema %s does not deploy: the mutation corpus is broken\n%s" % (sid, out[-1500:]))
         n_deployed += 1 if deployed else 0
         alpha = "abcdefg" if sid == "vtab" else "abcdeghilnoqrstuvxyz"
+        tree_k = chosen[k][3]
         for j in range(2 if quick else 3):
-            jobs.append(("m%d-%d" % (k, j), shared, os.path.join(user, "build"),
-                         gen_script(rnd, [sid, "vt", "vtab"], alpha, 90 if quick else 140),
+            lines = gen_script(rnd, [sid, "vt", "vtab"], alpha, 90 if quick else 140)
+            if j == 0 or repl.startswith("variant:"):
+                # aimed block: drive the component that reads the mutated / specially configured node, right after the head
+                # of the script and once more in the middle (the general generator reaches e.g. "the same punctuation key
+                # twice in a row on exactly the mutated key" far too rarely)
+                aim = c01aim.aimed(rnd, tree_k, path, alpha)
+                lines = lines[:4] + aim + lines[4:len(lines) // 2] + c01aim.aimed(rnd, tree_k, path, alpha) + lines[len(lines) // 2:]
+            jobs.append(("m%d-%d" % (k, j), shared, os.path.join(user, "build"), lines,
                          {"schema": sid, "mutated_path": list(path or []), "replacement": repl}))
     # --- corpus first
     cdir = os.path.join(vlib.VERIF, "corpus", "C01")
